@@ -45,6 +45,9 @@ class Unsupported(Exception):
     pass
 
 
+FIN = z3.Function("FIN", z3.RealSort(), z3.BoolSort())
+
+
 class RealOps:
     """floats are mathematical reals, ints mathematical integers"""
 
@@ -265,6 +268,8 @@ class RealOps:
         return x == y
 
     def ne(self, x, y):
+        if self.nonfinite_terms and isinstance(x, z3.ExprRef) and isinstance(y, z3.ExprRef) and z3.is_real(x) and x.eq(y):
+            return self.lnot(self.is_finite(x))       # x != x: the isnan idiom (NaN and inf are not told apart by the taint model)
         return self.lnot(self.eq(x, y))
 
     # ---- logic
@@ -321,10 +326,52 @@ class RealOps:
         one, zero = (1, 0) if isint else (Fraction(1), Fraction(0))
         return self.ite(self.gt(x, 0), one, self.ite(self.lt(x, 0), -one, zero))
 
+    # REAL mode has no non-finite values; with `nonfinite_terms` set (C11 observers) is_finite of a symbolic term is an uninterpreted predicate
+    # FIN(term): the program may then branch on the finiteness of a symbolic input (a NaN sentinel in a carried state), which the reals alone
+    # would fold away.  Concrete finite constants are finite.
+    nonfinite_terms = False
+
     def is_finite(self, x):
         if isconc(x):
             return not isinstance(x, float)
+        if self.nonfinite_terms and z3.is_real(x):
+            return self._fin(x)
         return True
+
+    def _fin(self, t):
+        """finiteness of a REAL-mode term under the NaN-taint model: input symbols carry a free predicate FIN(symbol); an arithmetic term or an
+        uninterpreted application is finite iff all its operands are; a select is as finite as the branch it selects"""
+        memo = self.__dict__.setdefault("_fin_memo", {})
+        stack = [t]
+        while stack:
+            u = stack[-1]
+            k = u.get_id()
+            if k in memo:
+                stack.pop()
+                continue
+            if not z3.is_app(u) or z3.is_rational_value(u) or z3.is_int_value(u) or z3.is_algebraic_value(u) or z3.is_true(u) or z3.is_false(u):
+                memo[k] = True
+                stack.pop()
+                continue
+            if u.num_args() == 0:
+                memo[k] = FIN(u) if z3.is_real(u) else True
+                stack.pop()
+                continue
+            ch = u.children()
+            if u.decl().kind() == z3.Z3_OP_ITE:
+                ch = ch[1:]
+            todo = [c for c in ch if c.get_id() not in memo]
+            if todo:
+                stack.extend(todo)
+                continue
+            if u.decl().kind() == z3.Z3_OP_ITE:
+                a, b = memo[ch[0].get_id()], memo[ch[1].get_id()]
+                memo[k] = a if (a is True and b is True) else z3.If(u.arg(0), z3.BoolVal(True) if a is True else a, z3.BoolVal(True) if b is True else b)
+            else:
+                parts = [memo[c.get_id()] for c in ch if memo[c.get_id()] is not True]
+                memo[k] = True if not parts else (parts[0] if len(parts) == 1 else z3.And(parts))
+            stack.pop()
+        return memo[t.get_id()]
 
     # ---- transcendentals: uninterpreted functions
     _pyf = dict(exp=math.exp, log=math.log, log1p=math.log1p, expm1=math.expm1, sin=math.sin, cos=math.cos, tan=math.tan,
